@@ -57,8 +57,9 @@ class Noh(ExactSolver):
                            self.geometry * np.ones(shape=r.shape),
                            self.rho0 * (1 + abs(self.u0) * t / r) ** (self.geometry - 1))
         pressure = np.where(r < shock_location,
-                            (self.rho0 * self.u0 ** 2) * 4.0 ** self.geometry / 3.0 * \
-                            np.ones(shape=r.shape),
+                            (self.gamma - 1) * self.rho0 * \
+                            ((self.gamma + 1) / (self.gamma - 1)) ** self.geometry * \
+                            (self.u0 ** 2) * (1.0 / 2.0) * np.ones(shape=r.shape),
                             np.zeros(shape=r.shape))
         sie = np.where(r < shock_location,
                       (self.u0 ** 2) * (1.0 / 2.0) * np.ones(shape=r.shape),
@@ -78,8 +79,9 @@ class Noh(ExactSolver):
                                     density=(self.rho0 * ((self.gamma + 1) / \
                                     (self.gamma - 1)) ** self.geometry,
                                     self.rho0 * 4.0 ** (self.geometry - 1)),
-                                    pressure=((self.rho0 * self.u0 ** 2) * \
-                                              4.0 ** self.geometry / 3.0, 0),
+                                    pressure=((self.gamma - 1) * self.rho0 * \
+                                              ((self.gamma + 1) / (self.gamma - 1)) ** \
+                                              self.geometry * (self.u0 ** 2) * 1.0 / 2.0, 0),
                                     sie=( (self.u0 ** 2)* 1.0 / 2.0, 0),
                                     velocity=(0, -1))
                                     ]
